@@ -122,6 +122,17 @@ def do_case(case):
         r['create_run_oob'] = 'ValueError'
     cb = inf.create_bootstrap()
     r['bootstrap_observation_changed'] = bool(list(cb.observation) != list(inf.observation))
+    # objects DERIVED from a parent that has already run (create_run / create_bootstrap copy the parent together with its
+    # result) and then run themselves: they must report THEIR OWN best run
+    r['derived'] = []
+    for kind, obj in (('create_run', cr), ('create_bootstrap', cb)):
+        if kind == 'create_bootstrap':
+            del CALLS[:]
+            obj.run()
+        sm = summary(obj)
+        r['derived'].append({'kind': kind, 'summary': sm, 'parent_loss': r['merged']['loss'],
+                             'loss_at_params': float(loss(coal(**obj.params_inferred), obj.observation)),
+                             'best_call_fun': min(cl['fun'] for cl in CALLS) if CALLS else None})
     r['truth'] = case['truth']
     # merging into / from a PERFECT fit: noise-free moments, one run started at the generating parameters (loss 0.0)
     nb_ = len(inf.bounds)
